@@ -18,10 +18,19 @@
    bookkeeping of a node ONLY through accesses performed while they hold that node's lock (coverage of the footprint), and
    that an operation's behaviour on a node is a function of its own local state and that node's data alone, are hypotheses
    about simulaqron/virtual_node/virtual.py which the trace tie (Conc/Cases.v) does NOT check: model L records lock events,
-   not accesses.  What IS tied: the lock events.  `sched` (end of this file) maps a model-L trace to its Lk/Ul schedule and
-   disciplined_legal / disciplined_two_phase prove that every accepted run of a configuration without _lock_nodes
-   operations yields a legal, two-phase lock schedule.  Known places where coverage fails in the code are listed in
-   notes/C03.md (the `active` test before the locks: D23; update_virtual_merge on bystander nodes; qubit-level locks). *)
+   not accesses.  D is NOT instantiated with the node record of Net/Model.v: `Net.Model.step` is a function of the whole
+   network (merges rewrite several nodes, `next_hid` is a network-wide ghost counter) and splitting it into per-node
+   accesses would be a second model of virtual.py with its own tie.
+   What IS tied: the lock events.  `sched` (section 5) maps a model-L trace to its Lk/Ul schedule; disciplined_legal and
+   disciplined_two_phase prove that every accepted run of a configuration without _lock_nodes operations is a legal,
+   two-phase lock schedule; disciplined_runs_serializable (section 6) concludes: ANY covered placement of accesses inside
+   such a trace is serializable in the order `lock_order (sched tr)`, which is computed from the trace alone.
+   The harness TESTS the prediction (harness/twophase.py, concprop.lockpoint_check): it compares every clean two-phase run
+   with the sequential run in lock-point order.  The comparison is not an obligation because coverage does fail in the code:
+   a destructive measurement removes the handle from `virtNode.root.virtQubits` (virtual.py:1377) under the lock of the
+   SIMULATING node only; such runs are serializable, but at the moment of the removal rather than at the lock point.  Other
+   known gaps: the `active` test before the locks (D23), update_virtual_merge on bystander nodes, qubit-level locks
+   (notes/C03.md). *)
 From Coq Require Import List Bool Arith Lia.
 From SQ Require Import Base.ListUtil Conc.Model Conc.Own Conc.Deadlock.
 Import ListNotations.
@@ -824,3 +833,118 @@ Example ex_trace_ok :
   sched ex_trace = [Lk 0 0; Lk 1 1; Ul 1 1; Lk 0 1; Ul 0 1; Ul 0 0; Lk 2 0; Ul 2 0] /\
   lock_order (sched ex_trace) = [1; 0; 2].
 Proof. vm_compute. repeat split; eauto. Qed.
+
+(* ================================================================================================================== *)
+(* 7. executable deciders, used by the harness on the lock schedules it records (harness/twophase.py)                 *)
+(* ================================================================================================================== *)
+Definition oeqb (a b : option opid) : bool :=
+  match a, b with None, None => true | Some x, Some y => Nat.eqb x y | _, _ => false end.
+
+Lemma oeqb_spec a b : oeqb a b = true <-> a = b.
+Proof.
+  destruct a as [x|], b as [y|]; simpl; try (split; [discriminate|congruence]); try tauto.
+  rewrite Nat.eqb_eq. split; congruence.
+Qed.
+
+Definition ok_legalb (h : lockst) (e : event) : bool :=
+  match e with Lk _ n => oeqb (h n) None | Ul o n => oeqb (h n) (Some o) | Ac _ _ => true end.
+
+Definition ok_covb (h : lockst) (e : event) : bool :=
+  match e with Ac o n => oeqb (h n) (Some o) | _ => true end.
+
+Fixpoint legalb (h : lockst) (s : list event) : bool :=
+  match s with [] => true | e :: t => ok_legalb h e && legalb (lstep h e) t end.
+
+Fixpoint coveredb (h : lockst) (s : list event) : bool :=
+  match s with [] => true | e :: t => ok_covb h e && coveredb (lstep h e) t end.
+
+Fixpoint two_phaseb (s : list event) : bool :=
+  match s with
+  | [] => true
+  | Ul o _ :: t => negb (haslk o t) && two_phaseb t
+  | _ :: t => two_phaseb t
+  end.
+
+Lemma legalb_spec : forall s h, legalb h s = true <-> legal h s.
+Proof.
+  induction s as [|e t IH]; simpl; intros h; [tauto|].
+  rewrite andb_true_iff, IH. destruct e; simpl; rewrite ?oeqb_spec; tauto.
+Qed.
+
+Lemma coveredb_spec : forall s h, coveredb h s = true <-> covered h s.
+Proof.
+  induction s as [|e t IH]; simpl; intros h; [tauto|].
+  rewrite andb_true_iff, IH. destruct e; simpl; rewrite ?oeqb_spec; tauto.
+Qed.
+
+Lemma two_phaseb_spec s : two_phaseb s = true <-> two_phase s.
+Proof.
+  induction s as [|[o n|o n|o n] t IH]; simpl; try tauto.
+  rewrite andb_true_iff, IH, negb_true_iff. tauto.
+Qed.
+
+(* what the harness asks about a recorded lock schedule: [legal?; two-phase?] ++ lock_order ++ [999] *)
+Definition sched_report (s : list event) : list nat :=
+  (if legalb free s then 1 else 0) :: (if two_phaseb s then 1 else 0) :: lock_order s ++ [999].
+
+Theorem sched_report_sound s order :
+  sched_report s = 1 :: 1 :: order ++ [999] -> legal free s /\ two_phase s /\ lock_order s = order.
+Proof.
+  unfold sched_report. intros H.
+  destruct (legalb free s) eqn:E1; try discriminate.
+  destruct (two_phaseb s) eqn:E2; try discriminate.
+  inversion H as [H1]. apply app_inv_tail in H1.
+  split; [apply legalb_spec; auto|]. split; [apply two_phaseb_spec; auto|auto].
+Qed.
+
+(* ================================================================================================================== *)
+(* 8. the serial schedule is a rearrangement: every operation keeps exactly its own events, in its own order          *)
+(* ================================================================================================================== *)
+Lemma never_locked_silent o : forall s h,
+  legal h s -> covered h s -> haslk o s = false -> (forall n, h n <> Some o) -> proj o s = [].
+Proof.
+  induction s as [|e t IH]; intros h HL HC HK Hh; auto.
+  simpl in HL, HC. destruct HL as [L1 L2]. destruct HC as [C1 C2].
+  rewrite proj_cons.
+  assert (Ne : eop e <> o).
+  { destruct e as [o1 m|o1 m|o1 m]; simpl in *.
+    - apply orb_false_iff in HK. destruct HK as [HK _]. apply Nat.eqb_neq in HK. auto.
+    - intro; subst. apply (Hh m); auto.
+    - intro; subst. apply (Hh m); auto. }
+  destruct (Nat.eqb_spec (eop e) o); [contradiction|].
+  apply (IH (lstep h e)); auto.
+  - destruct e; simpl in HK; auto. apply orb_false_iff in HK. tauto.
+  - intros m. destruct e as [o1 k|o1 k|o1 k]; simpl in *; auto.
+    + destruct (Nat.eq_dec m k) as [->|Nk]; [rewrite setl_eq; congruence|rewrite setl_neq; auto].
+    + destruct (Nat.eq_dec m k) as [->|Nk]; [rewrite setl_eq; congruence|rewrite setl_neq; auto].
+Qed.
+
+Lemma proj_proj o o' s : proj o (proj o' s) = if Nat.eqb o o' then proj o s else [].
+Proof.
+  induction s as [|e t IH]; [simpl; destruct (Nat.eqb o o'); auto|].
+  rewrite (proj_cons o' e t), (proj_cons o e t).
+  destruct (Nat.eqb_spec (eop e) o') as [E|E]; [rewrite proj_cons|]; rewrite IH;
+    destruct (Nat.eqb_spec (eop e) o) as [E2|E2]; destruct (Nat.eqb_spec o o') as [E3|E3]; auto; congruence.
+Qed.
+
+Lemma proj_app o a b : proj o (a ++ b) = proj o a ++ proj o b.
+Proof. apply filter_app. Qed.
+
+Lemma proj_flat_map o s : forall order, NoDup order ->
+  proj o (flat_map (fun o' => proj o' s) order) = if mem o order then proj o s else [].
+Proof.
+  induction order as [|a l IH]; simpl; intros ND; auto.
+  inversion ND; subst. rewrite proj_app, proj_proj, IH by auto.
+  destruct (Nat.eqb_spec a o) as [->|Ne]; simpl.
+  - rewrite Nat.eqb_refl. destruct (mem o l) eqn:E; [apply mem_In in E; contradiction|apply app_nil_r].
+  - destruct (Nat.eqb_spec o a); [congruence|auto].
+Qed.
+
+Theorem serial_keeps_each_operation s o :
+  legal free s -> covered free s -> proj o (serial s) = proj o s.
+Proof.
+  intros HL HC. unfold serial. rewrite proj_flat_map by apply lock_order_NoDup.
+  destruct (mem o (lock_order s)) eqn:E; auto.
+  symmetry. apply (never_locked_silent o s free); auto; [|discriminate].
+  destruct (haslk o s) eqn:E2; auto. apply lock_order_In in E2. apply mem_In in E2. congruence.
+Qed.
